@@ -23,3 +23,9 @@ namespace Sema.Go
 `c` (the backing array is re-used), otherwise what the run time chooses — the abstract `grow c n` -/
 def capAppend (grow : Int → Int → Int) (c n : Int) : Int := if n ≤ c then c else grow c n
 end Sema.Go
+
+namespace Sema.Go
+/-- `*p` of a pointer to a scalar held as `Option` (`&v` of a variable that is assigned once is `some v`);
+a nil dereference panics in Go, here it reads the zero value -/
+def deref {α : Type} [Inhabited α] (p : Option α) : α := p.getD default
+end Sema.Go
